@@ -133,6 +133,12 @@ class Bot(Task):
             if self.b.get('close_after_hello') and c.hello_out and not c.out and c.hello_in:
                 c.close()
 
+        if len(self.conns) > 40:
+            closed = [c for c in self.conns if c.closed]
+            if len(closed) > 20:
+                drop = set(id(c) for c in closed[:-10])
+                self.conns = [c for c in self.conns if id(c) not in drop]
+
     def _parse(self, c):
         from skepticoin.networking import messages as M
         while True:
